@@ -124,6 +124,7 @@ def check_memo_keys(ctx, rep, rule, modules, min_sites=1, only_functions=None):
         for fi in funcs:
             if only_functions and fi.qualname not in only_functions:
                 continue
+            n_sites += check_persistent_caches(prog, mod, fi, rep, rule)
             sites = find_memo_sites(fi)
             if not sites:
                 continue
@@ -172,6 +173,71 @@ def check_memo_keys(ctx, rep, rule, modules, min_sites=1, only_functions=None):
 
         raise AnalysisError(f"{rule}: found {n_sites} memo sites in {modules}, expected at least {min_sites}")
     return n_sites
+
+
+# rcache / result_cache only intern equal results (result -> result): sharing them is harmless
+_CACHE_KW = {"vcache", "visited_cache"}
+
+
+def _closure(names, defs, prog, mod, locs, stop=frozenset(), depth=4):
+    """(all names reachable through local definitions, base names = reachable names without a local definition);
+    names in `stop` are not expanded and not reported"""
+    seen, base = set(), set()
+    work = [(n, depth) for n in names]
+    while work:
+        n, d = work.pop()
+        if n in seen or n in stop:
+            continue
+        seen.add(n)
+        if n.startswith("self.") or n not in defs or d == 0:
+            base.add(n)
+            continue
+        for e in defs[n]:
+            for m in _names(e, prog, mod, locs):
+                work.append((m, d - 1))
+    return seen, base
+
+
+def check_persistent_caches(prog, mod, fi, rep, rule):
+    """(e) a caller-supplied cache handed to a traversal driver persists between calls and is keyed by the
+    visited node only: `driver(F, expr, vcache=C[K])` is a memo of F's results, so whatever F is built from
+    (followed through local definitions) must be determined by the selector K."""
+    fn = fi.node
+    locs = _fn_locals(fn)
+    defs = _local_defs(fn)
+    params = {a.arg for a in fn.args.posonlyargs + fn.args.args + fn.args.kwonlyargs}
+    n = 0
+    for call in ast.walk(fn):
+        if not isinstance(call, ast.Call) or not call.args:
+            continue
+        kws = [k for k in call.keywords if k.arg in _CACHE_KW]
+        if not kws:
+            continue
+        for k in kws:
+            c = k.value
+            if isinstance(c, ast.Constant) or (isinstance(c, ast.Name) and c.id in params):
+                continue  # None / the caller's cache passed through unchanged
+            if isinstance(c, ast.Name) and c.id in defs and all(isinstance(d, (ast.Dict, ast.Call)) and norm(d) in ("{}", "dict()") for d in defs[c.id]):
+                continue  # a cache created for this call only
+            sel = c.slice if isinstance(c, ast.Subscript) else None
+            sel_names = _names(sel, prog, mod, locs) if sel is not None else set()
+            sel_all, _ = _closure(sel_names, defs, prog, mod, locs)
+            f_names = _names(call.args[0], prog, mod, locs)
+            _, f_base = _closure(f_names, defs, prog, mod, locs, stop=frozenset(sel_all))
+            f_base = {b for b in f_base if not b.startswith("self.")}
+            n += 1
+            where = (fi, call)
+            if f_base:
+                rep.violation(
+                    rule,
+                    where,
+                    f"{norm(call.func)}({norm(call.args[0])}, ..., {k.arg}={norm(c)})",
+                    f"persistent traversal cache {norm(c)} is selected by ({norm(sel) if sel is not None else 'nothing'}) but the mapped function {norm(call.args[0])} "
+                    f"also depends on {sorted(f_base)}: results cached for one function are returned for another",
+                )
+            else:
+                rep.ok(rule, where, f"persistent traversal cache {norm(c)} is selected by everything the mapped function {norm(call.args[0])} is built from")
+    return n
 
 
 _LOSSY_CALLS = {"len", "bool", "type", "id", "hash", "str", "repr", "any", "all", "sum", "min", "max", "sorted", "set", "frozenset"}
